@@ -1619,6 +1619,8 @@ def validate(prop, rng, n_per_fn, res):
     if prop == "C15" and os.path.exists(TRDRIVER):
         validate_gridcompat(rng, max(60, 2 * n_per_fn), res)
         validate_canonical(rng, max(80, 2 * n_per_fn), res)
+    if prop == "C19" and os.path.exists(TRDRIVER):
+        validate_linking(rng, max(40, n_per_fn), res)
     if prop == "C19" and os.path.exists(TRDRIVER) and all(common.TRANSLATION_STATUS.get(f, {}).get("translated") for f in
                                                          ("check_input_connected", "check_dead_links", "check_branching")):
         validate_topology_heap(rng, max(20, n_per_fn), res)
@@ -1907,6 +1909,61 @@ def validate_run_loop(rng, n_specs, res):
                 stats["mismatch"] += 1
                 res.diverge("translation/run_loop", {"spec": spec}, want, got)
     res.extra["translation_validation_run_loop"] = stats
+
+
+def validate_linking(rng, n_cases, res):
+    """live `Input` / `Output` objects: sequences of `inp.source = x` and `out.add_target(x)` with outputs, adapters, inputs
+    and `None` as `x` — the attribute before, the answer (or error) and the attribute after, against the translated setter
+    and `add_target`"""
+    import logging
+
+    from finam import interfaces as itf
+
+    names = ("Input_set_source", "Output_add_target")
+    if not all(common.TRANSLATION_STATUS.get(f, {}).get("translated") for f in names):
+        return
+    stats = {"set_source": 0, "accepted_sources": 0, "add_target": 0, "accepted_targets": 0, "mismatch": 0}
+    reqs, expect = [], []
+    prev = logging.root.manager.disable
+    logging.disable(logging.CRITICAL)
+    try:
+        for _ in range(n_cases):
+            objs = [fm.Output("o0"), fm.Output("o1"), fm.adapters.Scale(2.0), fm.Input("i0"), fm.Input("i1"), None]
+            oid = lambda x: next(k for k, o in enumerate(objs) if o is x)  # noqa
+            outs = [k for k, o in enumerate(objs) if isinstance(o, itf.IOutput)]
+            ins = [k for k, o in enumerate(objs) if isinstance(o, itf.IInput)]
+            inp, out = fm.Input("x"), fm.Output("y")
+            for _step in range(rng.randint(2, 5)):
+                x = rng.choice(objs)
+                if rng.random() < 0.5:
+                    before = None if inp._source is None else oid(inp._source)
+                    try:
+                        inp.source = x
+                        want = {"ok": oid(inp._source)}
+                        stats["accepted_sources"] += 1
+                    except Exception as e:  # noqa
+                        want = {"err": err_class(e)}
+                    reqs.append({"fn": names[0], "args": [before, oid(x), outs]})
+                    stats["set_source"] += 1
+                else:
+                    before = [oid(t) for t in out._targets]
+                    try:
+                        out.add_target(x)
+                        want = {"ok": [oid(t) for t in out._targets]}
+                        stats["accepted_targets"] += 1
+                    except Exception as e:  # noqa
+                        want = {"err": err_class(e)}
+                    reqs.append({"fn": names[1], "args": [before, oid(x), ins]})
+                    stats["add_target"] += 1
+                expect.append((reqs[-1], want))
+    finally:
+        logging.disable(prev)
+    if reqs:
+        for (req, want), got in zip(expect, _trdriver(reqs)):
+            if got != want:
+                stats["mismatch"] += 1
+                res.diverge("translation/" + req["fn"], {"fn": req["fn"], "args": req["args"]}, want, got)
+    res.extra["translation_validation_linking"] = stats
 
 
 def validate_adapter_info(rng, n_cases, res):
